@@ -51,8 +51,8 @@ theorem position_extends (eng : Eng E) (e d : E) (c1 c2 : Cmd) (h1 : c1.Ok) (h2 
     | true =>
       simp only [if_true]
       have hp := (extend_ok_iff eng e e' rest).1 hx
-      have hne : ∀ w ∈ Fen.splitSpaces (Fen.trimSpace c2.render), w ≠ [] := by
-        rw [ht2, splitSpaces_render c2 h2]; exact words_ne_nil_each c2 h2
+      have hne : ∀ w ∈ Fen.splitSpaces (Fen.trimSpace c2.render), Word w := by
+        rw [ht2, splitSpaces_render c2 h2]; exact words_word c2 h2
       have ha := argsOf_continuation _ _ _ hc hne
       rw [argsOf_render c1 h1 ht1, argsOf_render c2 h2 ht2] at ha
       obtain ⟨hf, htl⟩ := ext_words c1 c2 h1 h2 rest ha
